@@ -713,6 +713,24 @@ func init() {
 		o.BreakW = 1 + f.W.Tape.Draw("breakw4r", 3)
 		o.Budget = 3 + f.W.Tape.Draw("budget4r", 4)
 	}, "q2_retransmission_seen", "resumed_after_restart")})
+	// the same with reception records altered or truncated (not removed)
+	// between the stop and the adoption: the record still marks the reception
+	register("C04", Family{Name: "restarts-damaged-marker", Weight: 1, Run: flowFamily(func(f *Flow) {
+		restartTune(-1)(f)
+		o := &f.O
+		o.Generations = 2 + f.W.Tape.Draw("gens4m", 2)
+		o.StopW = 2
+		o.FaultFreeAfterStop = false
+		o.Publishers = f.W.Tape.Draw("npub4m", 2)
+		o.Inbound = 3 + f.W.Tape.Draw("nin4m", 6)
+		o.InQ = [3]int{0, 0, 1}
+		o.BreakW = 1 + f.W.Tape.Draw("breakw4m", 3)
+		o.Budget = 3 + f.W.Tape.Draw("budget4m", 4)
+		o.StopFrom = 20 + f.W.Tape.Draw("stopfrom4m", 250)
+		f.BetweenGens = func(f *Flow, gen int) {
+			f.damageMarkers(1 + f.W.Tape.Draw("nmdmg", 2))
+		}
+	}, "damage_alter_marker", "damage_truncate_marker")})
 	register("C06", Family{Name: "fragments", Weight: 1, Run: flowFamily(func(f *Flow) {
 		o := &f.O
 		f.StrictInbound = true
@@ -849,6 +867,28 @@ func init() {
 			n := 1 + f.W.Tape.Draw("ndamage", 3)
 			f.drawDamage(n, nil)
 			f.addStray(f.W.Tape.Draw("nstray", 3))
+		}
+	}, "damaged_session_recovered")})
+	// the same with connection and storage faults met by the adopted client
+	// (a connection that breaks during the resend of adopted records): the
+	// liveness oracles then start at the quiescence phase, as in C02/anywhere
+	register("C16", Family{Name: "damage-faults", Weight: 1, Run: flowFamily(func(f *Flow) {
+		restartTune(-1)(f)
+		o := &f.O
+		o.Generations = 2
+		o.StopW = 2
+		o.FaultFreeAfterStop = false
+		o.Budget = 1 + f.W.Tape.Draw("budget16f", 3)
+		o.RWMin, o.RWMax = 100*time.Millisecond, time.Second
+		o.PerPub = 2 + f.W.Tape.Draw("perpub16f", 5)
+		o.Inbound = f.W.Tape.Draw("nin16f", 3)
+		o.InQ = [3]int{0, 1, 3}
+		o.StopFrom = 20 + f.W.Tape.Draw("stopfrom16f", 250)
+		f.BetweenGens = func(f *Flow, gen int) {
+			if gen != 2 {
+				return
+			}
+			f.drawDamage(1+f.W.Tape.Draw("ndamage16f", 2), nil)
 		}
 	}, "damaged_session_recovered")})
 	// damage, adoption, more work, another stop and adoption: what the first
